@@ -111,6 +111,12 @@ def matrix(seeds):
                 return os.path.basename(sdir), seed, 'patch-does-not-apply'
             rr = sh([os.path.join(VERIF, 'vcheck'), meta.get('detecting_check') or meta['property'], '--no-evidence', '--seed', str(seed), '--shards', '6'],
                     env=dict(os.environ, NDN_REPO=d))
+            if seed == seeds[0]:
+                # refresh the recorded detection (signature of the first violation) in meta.json
+                chk = meta.get('detecting_check') or meta['property']
+                sig = next((ln.strip() for ln in rr.stdout.splitlines() if ln.strip().startswith('signature:')), '')
+                meta.setdefault('checks', {})[chk] = {'exit': rr.returncode, 'signature': sig}
+                json.dump(meta, open(os.path.join(sdir, 'meta.json'), 'w'), indent=1)
             return os.path.basename(sdir), seed, rr.returncode
         finally:
             shutil.rmtree(d, ignore_errors=True)
